@@ -2026,7 +2026,9 @@ public:
   CodeBuffer(SymbolTable &symbolTable) :
     symbolTable(symbolTable), constCount(0), stringCount(0), labelCount(0) {}
 
-  const std::string getLabel() { return std::string("lab") + std::to_string(labelCount++); }
+  // Generated labels start with an underscore, which no X name can, so they
+  // cannot clash with the labels of procedures and functions.
+  const std::string getLabel() { return std::string("_lab") + std::to_string(labelCount++); }
   void insertInstr(std::unique_ptr<hexasm::Directive> instr) { instrs.push_back(std::move(instr)); }
   void insertData(std::unique_ptr<hexasm::Directive> data) { instrs.push_back(std::move(data)); }
 
@@ -2717,9 +2719,9 @@ public:
 
   void visitPre(Program &tree) {
     // Setup.
-    cb.genBR("start"); // Branch to the start.
+    cb.genBR("_start"); // Branch to the start.
     cb.genSPValue(); // Placeholder for the stack pointer value.
-    cb.genLabel("start");
+    cb.genLabel("_start");
     // Branch and link to main().
     cb.genLDAP("_exit");
     cb.genBR("main");
